@@ -220,7 +220,7 @@ Qed.
 
 Theorem step_wf st o : WF st -> WF (step st o).
 Proof.
-  unfold WF. intros H. destruct o as [s a b kids|r p c|r p kids|r p s|r p a|r p b|r p|r p|r|r p r2 p2|r p]; simpl.
+  unfold WF. intros H. destruct o as [s a b kids|r p c|r p kids|r p s|r p a|r p b|r p|r p|r|r p r2 p2|r p|r p]; simpl.
   - destruct (nodup_b kids); [|exact H]. destruct (take_roots kids (pool st)) as [ks|] eqn:E; [|exact H]. simpl.
     apply Forall_app. split; [apply Forall_remove_roots; exact H|]. constructor; [|constructor].
     apply wf_rebuild. eapply take_roots_Forall; eauto.
@@ -286,6 +286,14 @@ Proof.
     destruct (copy_obj (next st) None ro) as [c nx] eqn:Ec. cbn [pool].
     pose proof (copy_obj_wf ro (next st) None) as Hc. rewrite Ec in Hc. destruct Hc as (Wc & _).
     apply Forall_app. split; [exact H|]. constructor; [|constructor]. apply prefix_at_wf. exact Wc.
+  - destruct (nth_error (pool st) r) as [ro|] eqn:Er; [|exact H].
+    destruct (obj_at ro p) as [n|]; [|exact H].
+    destruct (copy_obj (next st) None ro) as [c nx] eqn:Ec. cbn [pool].
+    pose proof (copy_obj_wf ro (next st) None) as Hc. rewrite Ec in Hc. destruct Hc as (Wc & _).
+    apply Forall_app. split; [exact H|]. constructor; [|constructor].
+    apply modify_at_wf; [|exact Wc]. intros m Hm. split.
+    + apply wf_refresh; constructor.
+    + apply refresh_facts.
 Qed.
 
 Theorem ops_preserve_wf ops : forall st, WF st -> WF (fold_left step ops st).
@@ -296,7 +304,7 @@ Proof. apply ops_preserve_wf. constructor. Qed.
 
 (* copies, replacements and prefixes are new objects: the pool they were taken from is unchanged *)
 Definition is_fresh_op (o : op) : bool :=
-  match o with OCopy _ _ | OCopyWhole _ | OReplace _ _ _ _ | OPrefix _ _ => true | _ => false end.
+  match o with OCopy _ _ | OCopyWhole _ | OReplace _ _ _ _ | OPrefix _ _ | OCopyPruned _ _ => true | _ => false end.
 
 Theorem fresh_ops_leave_inputs st o : is_fresh_op o = true ->
   pool (step st o) = pool st \/ exists c, pool (step st o) = pool st ++ [c].
@@ -310,6 +318,8 @@ Proof.
     destruct (Nat.eqb (osym o1) (osym o2)); [destruct (copy_obj n None o2)|]; simpl; right; eexists; reflexivity.
   - destruct (nth_error (pool st) r); [|auto]. destruct p; [auto|].
     destruct (match nth_error (okids o) n with Some k => obj_at k p | None => None end); [|auto].
+    destruct (copy_obj (next st) None o). cbn [pool]. right. eexists; reflexivity.
+  - destruct (nth_error (pool st) r); [|auto]. destruct (obj_at o p); [|auto].
     destruct (copy_obj (next st) None o). cbn [pool]. right. eexists; reflexivity.
 Qed.
 
